@@ -14,7 +14,8 @@
    chain of nodes linked through their level-0 links reads back as exactly the records of those nodes
    (C03_image_reads_back_partial) - the codec half of `reopen_identity`.  The model reader of these theorems is run on every
    real image next to the implementation's own readers (_kvblk_key_peek / _kvblk_value_peek): stored key, value length and
-   value bytes of every slot of every node must agree.
+   value bytes of every slot of every node must agree, and the hypothesis of the theorem is tested on every real image
+   (Records.db_canonical: the image holds the writers' encoding of every decoded node: node block, index, records).
    NOT proved (open goal, kept visible): that iwkv_close leaves such an image behind for the store's in-memory state
    (`reopen_identity : abs (open (close s)) = abs s` for the whole store model), `trim_preserves`, `rdonly_no_effect`.
    Those are decided per history on the implementation: dump before close =
